@@ -1373,6 +1373,14 @@ def _make_dual_use_func(func_ip, func_oop, domain, out_dtype):
                     if not out.flags.writeable:
                         out = out.copy()
 
+                # A function like ``lambda x: x[0]`` returns (a view of) its
+                # input. The result must own its memory, otherwise modifying
+                # it in place would alter the sampling points (e.g. the
+                # coordinate vectors of the grid in `DiscretizedSpace.element`).
+                x_arrs = x if isinstance(x, tuple) else (x,)
+                if any(np.may_share_memory(out, xi) for xi in x_arrs):
+                    out = out.copy()
+
             elif tensor_valued:
                 # The out object can be any array-like of objects with shapes
                 # that should all be broadcastable to scalar_out_shape.
